@@ -94,7 +94,7 @@ class Prog:
                 out.append("R " + " ".join(f2hexfloat(v) for v in st[1:]))
             elif k == "CI":
                 out.append("CI %s %d" % (f2hexfloat(st[1]), st[2]))
-            elif k in ("TR", "RO", "SC", "MI", "TF"):
+            elif k in ("TR", "RO", "SC", "MI", "TF", "ST", "SI"):
                 out.append("%s %d %s" % (k, st[1], " ".join(f2hexfloat(v) for v in st[2:])))
             elif k == "W":
                 out.append("W %d %d %s %s" % (st[1], st[2], f2hexfloat(st[3]), f2hexfloat(st[4])))
@@ -106,7 +106,7 @@ class Prog:
             return [st[2], st[3]]
         if st[0] == "BB":
             return list(st[2])
-        if st[0] in ("TR", "RO", "SC", "MI", "TF", "W"):
+        if st[0] in ("TR", "RO", "SC", "MI", "TF", "W", "ST", "SI"):
             return [st[1]]
         return []
 
@@ -127,7 +127,7 @@ class Prog:
                 q.add("B", st[1], ren[st[2]], ren[st[3]])
             elif st[0] == "BB":
                 q.add("BB", st[1], [ren[r] for r in st[2]])
-            elif st[0] in ("TR", "RO", "SC", "MI", "TF", "W"):
+            elif st[0] in ("TR", "RO", "SC", "MI", "TF", "W", "ST", "SI"):
                 q.add(st[0], ren[st[1]], *st[2:])
             else:
                 q.add(*st)
@@ -222,6 +222,84 @@ def gen_lattice(rng, cx):
                 regs.append(p.add("BB", rng.randint(0, 2), [rng.choice(regs) for _ in range(k)]))
             else:
                 regs.append(p.add("TR", rng.choice(regs), float(rng.randint(-3, 3)), float(rng.randint(-3, 3))))
+        progs.append(p)
+    progs += gen_history(rng, cx)
+    return progs
+
+
+def gen_history(rng, cx):
+    """lattice Booleans on operands whose HISTORY inflated tolerance_ far above the scale of the
+    operation (the eps of a Boolean must come from its input edges, never from inherited drift)"""
+    progs = []
+    for t in range(cx.pick(40, 400)):
+        p = Prog("history", "lattice")
+        # coarse base shape: every feature is a multiple of 8, so it survives an operation whose own eps is ~3
+        bx, by = 8 * rng.randint(0, 1), 8 * rng.randint(0, 1)
+        if rng.random() < 0.5:
+            w, h = 8 * rng.randint(1, 3), 8 * rng.randint(1, 2)
+            base = p.add("R", float(bx), float(by), float(bx + w), float(by + h))
+        else:
+            hist = histogram(rng, rng.randint(1, 3), 2, 0, 0)
+            base = p.add("P", 0, [[(bx + 8 * x, by + 8 * y) for x, y in hist]])
+            w, h = 24, 16
+        kind = t % 6
+        if kind == 0:      # T1: once intersected with / united inside a huge operand
+            H = float(2 ** rng.choice([38, 40, 42]))
+            huge = p.add("R", -H, -H, H, H)
+            a = p.add("B", 2, base, huge) if rng.random() < 0.7 else p.add("B", 2, huge, base)
+        elif kind == 1:    # T2: anisotropic stretch / un-stretch rounds, each materialised by a Boolean
+            f = rng.choice([16.0, 64.0, 1024.0])
+            rounds = {16.0: 10, 64.0: 7, 1024.0: 4}[f]
+            a = base
+            clip = p.add("R", float(bx), float(by), float(bx + w), float(by + h))
+            for _ in range(rounds):
+                if rng.random() < 0.5:
+                    wide = p.add("SC", a, f, 1.0)
+                    sh = p.add("TR", wide, f, 0.0)
+                    inv = (1.0 / f, 1.0)
+                else:
+                    wide = p.add("SC", a, 1.0, f)
+                    sh = p.add("TR", wide, 0.0, f)
+                    inv = (1.0, 1.0 / f)
+                u = p.add("B", 0, wide, sh)
+                back = p.add("SC", u, inv[0], inv[1])
+                a = p.add("B", 2, back, clip)
+        elif kind == 2:    # T3: combined far from the origin, then moved back
+            far = float(2 ** rng.choice([38, 40, 41]))
+            fx, fy = (far, 0.0) if rng.random() < 0.5 else (0.0, far)
+            moved = p.add("TR", base, fx, fy)
+            other = p.add("R", fx + bx + 8.0, fy + by, fx + bx + w + 8.0, fy + by + h)
+            u = p.add("B", 0, moved, other)
+            a = p.add("TR", u, -fx, -fy)
+        elif kind == 3:    # SetTolerance / Simplify below the smallest deviation (8/sqrt(2) > 4)
+            a = p.add(rng.choice(["ST", "SI"]), base, rng.choice([1.0, 2.0, 3.0, 4.0]))
+            if rng.random() < 0.5:
+                a = p.add("B", 0, a, base)
+        elif kind == 4:    # isotropic blow-up and back through Booleans
+            f = float(2 ** rng.choice([20, 30, 38]))
+            big = p.add("SC", base, f, f)
+            u = p.add("B", 0, big, big)
+            a = p.add("SC", u, 1.0 / f, 1.0 / f)
+        else:              # two histories chained
+            H = float(2 ** 40)
+            huge = p.add("R", -H, -H, H, H)
+            a0 = p.add("B", 2, base, huge)
+            a1 = p.add("TR", a0, 8.0, 0.0)
+            a = p.add("B", 0, a0, a1)
+        # fine-feature lattice operands and the Booleans that must be pixel exact
+        fine = []
+        for _ in range(rng.randint(1, 3)):
+            ox, oy = bx + rng.randint(-1, w), by + rng.randint(-1, h)
+            if rng.random() < 0.6:
+                fine.append(p.add("R", float(ox), float(oy), float(ox + rng.randint(1, 3)), float(oy + rng.randint(1, 3))))
+            else:
+                fine.append(p.add("P", 0, [histogram(rng, rng.randint(1, 4), 3, ox, oy)]))
+        for u in fine:
+            for op in (0, 1, 2):
+                p.add("B", op, a, u)
+                if op != 1 or rng.random() < 0.5:
+                    p.add("B", op, u, a)
+        p.add("BB", rng.randint(0, 2), [a] + fine)
         progs.append(p)
     return progs
 
@@ -481,6 +559,14 @@ def expr_of(prog, k, regs, warp):
     if st[0] == "TR" and prog.regime == "lattice":
         i, tx, ty = st[1:4]
         return ("POS", [[(x + tx, y + ty) for x, y in c] for c in regs[i]["polys"]]), "translate"
+    if st[0] == "SC" and prog.regime == "lattice" and st[2] > 0 and st[3] > 0:
+        i, fx, fy = st[1:4]       # power-of-two factors: exact
+        return ("POS", [[(x * fx, y * fy) for x, y in c] for c in regs[i]["polys"]]), "scale"
+    if st[0] in ("ST", "SI") and prog.regime == "lattice":
+        # the generator only uses tolerances below the smallest vertex deviation of the operand: same point set
+        return ("POS", regs[st[1]]["polys"]), "simplify"
+    if st[0] in ("ST", "SI"):
+        return None, "opaque"
     if st[0] == "W":
         return ("POS", warp.get(k, [])), "warp"
     return None, "transform"
@@ -534,16 +620,35 @@ def make_job(jid, prog, k, regs, warp, rng, nsamp):
     xs = [to_int(x, s) for c in allc for x, _ in c] or [0]
     ys = [to_int(y, s) for c in allc for _, y in c] or [0]
     pts = []
+    exact = False
     if lattice:
         s *= 2
         xs = [2 * v for v in xs]; ys = [2 * v for v in ys]
-        E = 0
+        eps = regs[k]["eps"]
+        # pixel centres are half a unit from every lattice line: exact pixel semantics whenever the
+        # exclusion radius (EPS_MULT * InferEps of THIS operation's input edges) is below that
+        if eps * EPS_MULT < 0.5:
+            E, exact = 0, True
+        else:
+            E = int(math.ceil(Fraction(eps) * EPS_MULT * s))
         step = s        # one lattice unit in scaled coordinates
         x0 = (min(xs) // step) - 1; x1 = (max(xs) // step) + 1
         y0 = (min(ys) // step) - 1; y1 = (max(ys) // step) + 1
-        for i in range(x0, x1 + 1):
-            for j in range(y0, y1 + 1):
-                pts.append((i * step + step // 2, j * step + step // 2))
+        if (x1 - x0 + 1) * (y1 - y0 + 1) <= 4096:
+            for i in range(x0, x1 + 1):
+                for j in range(y0, y1 + 1):
+                    pts.append((i * step + step // 2, j * step + step // 2))
+            full = True
+        else:
+            full = False
+            for _ in range(1500):
+                pts.append((rng.randint(x0, x1) * step + step // 2, rng.randint(y0, y1) * step + step // 2))
+            # and the pixels around vertices
+            vs = [(to_int(x, s), to_int(y, s)) for c in allc for x, y in c]
+            for vx_, vy_ in rng.sample(vs, min(len(vs), 150)):
+                for di in (-1, 0):
+                    for dj in (-1, 0):
+                        pts.append(((vx_ // step + di) * step + step // 2, (vy_ // step + dj) * step + step // 2))
     else:
         eps = regs[k]["eps"]
         E = int(math.ceil(Fraction(eps) * EPS_MULT * s)) if eps > 0 else 1
@@ -573,7 +678,8 @@ def make_job(jid, prog, k, regs, warp, rng, nsamp):
     toks = ["JOB", str(jid), hx(E)] + conts_tokens(result, s) + (expr_tokens(e, s) if e is not None else ["NONE"]) + [hx(len(pts))]
     for x, y in pts:
         toks += [hx(x), hx(y)]
-    meta = {"kind": kind, "scale": s, "E": E, "npts": len(pts), "lattice": lattice, "has_formula": e is not None, "pts": pts}
+    meta = {"kind": kind, "scale": s, "E": E, "npts": len(pts), "lattice": lattice, "has_formula": e is not None, "pts": pts,
+            "pixel_exact": lattice and exact, "full_grid": lattice and exact and full}
     return " ".join(toks), meta
 
 
@@ -645,7 +751,7 @@ def judge(cx, progs, res, drv, rng, label, stats):
         stats["far_points"] += nfar
         stats["points"] += meta["npts"]
         stats["kinds"][kind] = stats["kinds"].get(kind, 0) + 1
-        regs[k]["wsum"] = wsum
+        regs[k]["wsum"] = wsum if meta["full_grid"] else None
         if kind in ("boolean", "batch", "fill", "warp") and len(regs[k]["polys"]) > 0:
             stats["nontrivial"] += 1
         sl, newk = prog.slice(k)
@@ -670,10 +776,11 @@ def judge(cx, progs, res, drv, rng, label, stats):
             key = ("lattice-pixelset-differs-" if meta["lattice"] else "formula-differs-") + kind
             vx.violation(key, "%s: register %d (%s): result winding differs from the set formula of the operands at sample %s (scaled by %d, exclusion radius %d)"
                          % (prog.tag, k, kind, p, meta["scale"], meta["E"]), dict(rep, sample=p))
-        if meta["lattice"] and meta["has_formula"]:
+        if meta["pixel_exact"] and meta["has_formula"]:
+            stats["pixel_exact_jobs"] = stats.get("pixel_exact_jobs", 0) + 1
             if nfar != meta["npts"]:
                 cx.broke("corr:C11/lattice-sampling", "pixel centres not all far from lattice edges in job %s" % jid)
-            if regular and formula:
+            if regular and formula and meta["full_grid"]:
                 # Area() must be exactly the pixel count
                 count = wsum
                 ab = regs[k]["area"]
@@ -695,7 +802,8 @@ def judge(cx, progs, res, drv, rng, label, stats):
                 key = (st[1], min(st[2], st[3]), max(st[2], st[3]))
                 if key in seen and (st[2], st[3]) != seen[key][1]:
                     k0 = seen[key][0]
-                    if regs[k0].get("wsum") != regs[k].get("wsum") or regs[k0]["area_bits"] != regs[k]["area_bits"]:
+                    w0, w1 = regs[k0].get("wsum"), regs[k].get("wsum")
+                    if (w0 is not None and w1 is not None and w0 != w1) or regs[k0]["area_bits"] != regs[k]["area_bits"]:
                         vx.violation("lattice-order-dependent", "%s: registers %d and %d (%s with swapped operands) differ in pixel count or Area bits"
                                      % (prog.tag, k0, k, OPS[st[1]]), dict(prog.replay(), registers=[k0, k]))
                     stats["order_pairs"] += 1
@@ -764,17 +872,29 @@ def run(cx):
     cx.assumptions += [
         "translation validation: the theorems say 'whenever the extracted checker accepts, the output satisfies the declarative statement'; which outputs are examined is what the generator reaches",
         "not proved: the sweep discovers every crossing and orders the status correctly (block rule), MergeVerts / incidence pre-split geometry; decided per output by regular_check / formula_check",
+        "the exclusion radius is computed by the harness itself as InferEps of the operation's INPUT polygons, never from the result's or operands' tolerance_; "
         "samples within %d*eps (eps = InferEps of the operation) of an input edge are excluded from the formula test; winding-0/1 and the exact edge tests have no tolerance" % EPS_MULT,
         "doubles are converted to integers by a common power-of-two scale in Python (exact rational arithmetic); the harness prints IEEE bit patterns",
         "SweepPass (status_/pending_/events_) as a whole is not modelled: the proved kernels are PolySetAdd/split (0-boundary), MergeVerticals1D (coverage), IsInside table, OutEdgesToPolygons+PushSimpleLoops",
     ]
+    # translator: which quantity is passed as eps to Boolean2D / ApplyFillRule (regenerated from the tree under test)
+    import sys
+    sys.path.insert(0, os.path.join(vp.ROOT, "translate"))
+    import c11_eps
+    sites, problems = c11_eps.emit(vp.REPO, os.path.join(vp.COQ, "Gen", "C11Eps.v"))
+    cx.cov["eps_sites_from_source"] = [{"function": f, "callee": c, "eps_is_InferEps_of_call_operands": ok, "eps_definition": rhs} for f, c, ok, rhs in sites]
+    cx.obligation("translate:cross_section.cpp eps call sites parsed", not problems and len(sites) >= 6,
+                  "could not parse the Boolean2D/ApplyFillRule call sites of cross_section.cpp: %s (found %d)" % (problems[:3], len(sites)))
+    for f, c, ok, rhs in sites:
+        cx.obligation("translate:eps passed by CrossSection::%s to %s = InferEps(input polygons)" % (f, c), ok,
+                      "CrossSection::%s passes eps = %s to %s: not the epsilon of the operation's input edges (inherited tolerance leaks into the arrangement)" % (f, rhs, c))
     cx.prove()
     mls = vp.coq_extract("ExtractC11", ["c11_model.ml"])
     drv = vp.ocaml_build("c11_driver", mls + [os.path.join(vp.ROOT, "extract/c11_driver.ml")], flags=["-O3"] if False else [])
     rng = random.Random(cx.seed * 104729 + 11)
     kmis = kernels(cx, drv, rng)
     exe = vp.build_harness("c11_xsec", "seq", link_lib=True)
-    stats = {"nontrivial": 0, "checked": 0, "points": 0, "far_points": 0, "kinds": {}, "lattice_exact": 0, "lattice_nontrivial": 0, "order_pairs": 0}
+    stats = {"pixel_exact_jobs": 0, "nontrivial": 0, "checked": 0, "points": 0, "far_points": 0, "kinds": {}, "lattice_exact": 0, "lattice_nontrivial": 0, "order_pairs": 0}
     lat = gen_lattice(rng, cx)
     res = run_programs(cx, exe, lat, "lattice")
     judge(cx, lat, res, drv, rng, "lattice", stats)
@@ -799,7 +919,7 @@ def run(cx):
                 "(lattice: non-empty result); programs are seeded, statements of a program are distinct by construction",
         "distribution": {"programs_lattice": len(lat), "programs_generic": len(gen), "by_kind": stats["kinds"], "comb_programs_over_1024_edges": big,
                          "sample_points": stats["points"], "sample_points_far_from_input_edges": stats["far_points"],
-                         "lattice_results_pixel_exact": stats["lattice_exact"], "order_independence_pairs": stats["order_pairs"]},
+                         "lattice_results_pixel_exact": stats["lattice_exact"], "history_programs": sum(1 for p in lat if p.tag == "history"), "order_independence_pairs": stats["order_pairs"]},
         "kernel_mismatches": kmis,
     })
     for p in (lat[0], gen[0], gen[2]):
